@@ -44,6 +44,7 @@ type c16World struct {
 	list    []*c16Dev
 	keks    map[string][]byte
 	netID   [3]byte
+	sender  string // how this network server spells its NetID in SenderID (also its KEK label)
 	handler http.Handler
 }
 
@@ -51,6 +52,13 @@ func newC16World(r *core.RNG) *c16World {
 	w := &c16World{devs: map[[8]byte]*c16Dev{}, keks: map[string][]byte{}}
 	r.Fill(w.netID[:])
 	nsLabel := hex.EncodeToString(w.netID[:])
+	switch r.Intn(4) { // identifiers are hex text; a peer may write it in upper case or with 0x
+	case 0:
+		nsLabel = strings.ToUpper(nsLabel)
+	case 1:
+		nsLabel = "0x" + nsLabel
+	}
+	w.sender = nsLabel
 	if r.Bool() {
 		w.keks[nsLabel] = r.Bytes([]int{16, 24, 32}[r.Intn(3)])
 	}
@@ -134,7 +142,7 @@ func c16MakeRequest(r *core.RNG, w *c16World, forceValid bool) c16Req {
 		q.known = false
 	}
 	q.dev = &dev
-	q.sender = hex.EncodeToString(w.netID[:])
+	q.sender = w.sender
 	q.receiver = hex.EncodeToString(dev.JoinEUI[:])
 	q.txID = r.U32()
 	q.nonce = uint16(r.U32Edge())
